@@ -139,6 +139,7 @@ bool impl_equals(const cbor_item_t* it, const MV& v, std::string& why, const std
       if (cbor_array_is_definite(it) != v.definite) return bad("definite/indefinite flavour differs");
       if (cbor_array_size(it) != v.kids.size()) return bad(fmt("array size %zu, expected %zu", cbor_array_size(it), v.kids.size()));
       if (cbor_array_size(it) > cbor_array_allocated(it)) return bad("size exceeds allocated");
+      if (!v.kids.empty() && !cbor_array_handle(it)) return bad("array has elements but NULL storage");
       for (size_t i = 0; i < v.kids.size(); i++) if (!impl_equals(cbor_array_handle(it)[i], v.kids[i], why, P(path, fmt("[%zu]", i)))) return false;
       return true;
     }
@@ -147,6 +148,7 @@ bool impl_equals(const cbor_item_t* it, const MV& v, std::string& why, const std
       if (cbor_map_is_definite(it) != v.definite) return bad("definite/indefinite flavour differs");
       if (cbor_map_size(it) * 2 != v.kids.size()) return bad(fmt("map size %zu, expected %zu", cbor_map_size(it), v.kids.size() / 2));
       if (cbor_map_size(it) > cbor_map_allocated(it)) return bad("size exceeds allocated");
+      if (!v.kids.empty() && !cbor_map_handle(it)) return bad("map has pairs but NULL storage");
       for (size_t i = 0; i < v.kids.size() / 2; i++) {
         if (!impl_equals(cbor_map_handle(it)[i].key, v.kids[2 * i], why, P(path, fmt("{%zu}.key", i)))) return false;
         if (!impl_equals(cbor_map_handle(it)[i].value, v.kids[2 * i + 1], why, P(path, fmt("{%zu}.value", i)))) return false;
